@@ -43,6 +43,10 @@ class RefMachine:
         return "ok" if self.current in self.transitions[name][0] else "forbidden"
 
 
+class HandlerFailed(Exception):
+    pass
+
+
 # ------------------------------------------------------------------------------------------ generated machines
 def build_machine(defn, log):
     """defn: {"parents": [...], "transitions": [[name, [sources], dest]], "initial": i, "handler": [state, transition] | None}"""
@@ -78,6 +82,9 @@ def build_machine(defn, log):
                 log.append(("nested-done", ht))
             except Exception as exc:  # noqa: BLE001
                 log.append(("nested-raised", type(exc).__name__))
+            if defn.get("handler_raises"):
+                # an application handler that fails after having requested a transition: the failure reaches the requester
+                raise HandlerFailed
 
         states[hs].events.enter.register(nested)
     return sm, states
@@ -101,6 +108,12 @@ def step_oracle(ref, defn, name, sm, states, log, before_active_lib, raised):
             out.append((f"refused-request-fired-events|{verdict}", {"log": log}))
         if {i for i, s in enumerate(states) if s.active} != before_active_lib:
             out.append((f"refused-request-changed-active-flags|{verdict}", {}))
+        return out  # (flags are compared with their own value before the request, so this also holds after a handler failure)
+    if raised == "HandlerFailed" and defn.get("handler_raises"):
+        # the application's own failure: what the machine looks like right now is not constrained (the statement does not cover
+        # failing handlers); later requests are still held to: refused => raises/unchanged, allowed => exactly its destination, called once
+        ref.current = states.index(sm.current_state)
+        ref.tainted = True
         return out
     if raised is not None:
         out.append((f"allowed-request-raised|{raised}", {"log": log}))
@@ -121,7 +134,9 @@ def step_oracle(ref, defn, name, sm, states, log, before_active_lib, raised):
     ref_nested = []
     if handler:
         nm, b, a = performed[-1]
-        entered = (a - b) | ({ref.transitions[nm][1]} if ref.transitions[nm][1] in b else set())
+        # the handler runs when its state fires 'enter'.  A state that becomes active must fire it; a state that stays active may be
+        # left and re-entered (external-transition semantics, accepted above), so for those the implementation's own event decides.
+        entered = (a - b) | ({handler[0]} if (handler[0] in a and ("enter", handler[0]) in log) else set())
         if handler[0] in entered:
             v = ref.allowed(handler[1])
             if v == "ok":
@@ -141,6 +156,11 @@ def step_oracle(ref, defn, name, sm, states, log, before_active_lib, raised):
         ref.current = states.index(sm.current_state)
         return out
     lib_active = {i for i, s in enumerate(states) if s.active}
+    if getattr(ref, "tainted", False):
+        called = [e[1] for e in log if e[0] == "called"]
+        if sorted(called) != sorted(p[0] for p in performed):
+            out.append((f"called-events|{nesting}|after-handler-failure|got={len(called)}|want={len(performed)}", {"log": log}))
+        return out
     if lib_active != ref.active():
         extra = sorted(lib_active - ref.active())
         missing = sorted(ref.active() - lib_active)
@@ -183,6 +203,8 @@ def run_program(defn, depth):
                     sm.nested_budget = 1
                     try:
                         sm._perform_transition(prev)
+                    except HandlerFailed:
+                        ref.tainted = True
                     except Exception:  # noqa: BLE001
                         pass
                     ref_replay(ref, defn, prev, sm, states)
@@ -221,7 +243,34 @@ def describe(defn):
             d += 1
             q = defn["parents"][q]
         depth = max(depth, d)
-    return f"states={len(defn['parents'])}|depth={depth}|handler={'none' if not defn.get('handler') else ('leaf' if defn['handler'][0] not in defn['parents'] else 'parent')}"
+    h = 'none' if not defn.get('handler') else ('leaf' if defn['handler'][0] not in defn['parents'] else 'parent')
+    return f"states={len(defn['parents'])}|depth={depth}|handler={h}{'+raises' if defn.get('handler_raises') else ''}"
+
+
+DEEP_SHAPES = [
+    # grandparent with two branches, a leaf under each (3 levels), plus a root-level leaf to start from
+    [None, None, 1, 1, 2, 3],
+    # chain of depth 2 next to a flat leaf and a sibling subtree
+    [None, None, 1, 2, 1],
+    [None, None, 1, 2, 2, None],
+]
+
+
+def deep_definitions():
+    for parents in DEEP_SHAPES:
+        n = len(parents)
+        leaves = [i for i in range(n) if i not in parents]
+        initial = [i for i in leaves if parents[i] is None][0]
+        # a cycle through all leaves plus every direct leaf-to-leaf transition
+        trans = []
+        for a in leaves:
+            for b in leaves:
+                if a != b:
+                    trans.append([f"t{a}_{b}", [a], b])
+        yield {"parents": parents, "transitions": trans, "initial": initial, "handler": None}
+        for hs in range(n):
+            for t in trans[:: max(1, len(trans) // 6)]:
+                yield {"parents": parents, "transitions": trans, "initial": initial, "handler": [hs, t[0]]}
 
 
 def check_program(case):
@@ -514,8 +563,16 @@ def run(ctx):
         for init in ("EQUIPMENT_OFFLINE", "ATTEMPT_ONLINE", "HOST_OFFLINE", "ONLINE"):
             for sub in ("LOCAL", "REMOTE"):
                 yield {"kind": "shipped", "machine": f"control:{init}:{sub}", "depth": 4}
+        k = 0
         for defn in gen_definitions(4 if ctx.thorough else 3, ctx.thorough):
             yield {"kind": "program", "defn": defn, "depth": 3}
+            k += 1
+            if defn.get("handler") and (ctx.thorough or k % 3 == 0):
+                yield {"kind": "program", "defn": dict(defn, handler_raises=True), "depth": 3}
+        for defn in deep_definitions():
+            yield {"kind": "program", "defn": defn, "depth": 2 if not ctx.thorough else 3}
+            if defn.get("handler"):
+                yield {"kind": "program", "defn": dict(defn, handler_raises=True), "depth": 2}
 
     n = ctx.run_cases(check_case, cases(), "c18-programs", chunk=64)
     states += ctx.cov.get("machine_states", 0)
